@@ -217,6 +217,17 @@ def renderAmpm (t : DT) : List Char :=
 def renderHmsLetters (t : DT) : List Char :=
   isoDate t ++ [' '] ++ pad2 t.hh.toNat ++ ['h'] ++ pad2 t.mm.toNat ++ ['m'] ++ pad2 t.ss.toNat ++ ['s']
 
+/-- ctime followed by an offset (after a space): `Www Mmm dd HH:MM:SS YYYY <offset>` -/
+def renderCtimeOff (w : Nat) (t : DT) (off : Off) : List Char :=
+  renderMon (.ctime w) t .naive ++ off.render
+
+/-- `YYYY-MM-DD HHhMMmSS(.|,)f{k}s<offset>`: the unit notation with `k` fraction digits on the seconds
+    (expectation: `TimeFmt.expect (.frac _ k)`; the theorem covers k = 1, 2, 4, 6 — with 3 or 5 digits the token `SS.fff` /
+    `SS.fffff` is 6 / 8 characters long and /repo rejects it: known finding D-C02-hms-fraction-token-length) -/
+def renderHmsFrac (comma : Bool) (k : Nat) (t : DT) (off : Off) : List Char :=
+  isoDate t ++ [' '] ++ pad2 t.hh.toNat ++ ['h'] ++ pad2 t.mm.toNat ++ ['m'] ++
+    (pad2 t.ss.toNat ++ [if comma then ',' else '.'] ++ (pad6 t.us.toNat).take k ++ ('s' :: off.render))
+
 end PT
 
 namespace PT
